@@ -477,8 +477,9 @@ fn comment_def<'a>(input: &mut &'a [u8]) -> ModalResult<Comment<'a>, InputError<
         *input = &input[1..];
     }
 
-    // Take until newline or end of input - this is the actual comment content
-    let line_content = take_while(0.., |c: u8| c != b'\n').parse_next(input)?;
+    // Take until end of line (LF, CR or CRLF, as in `ws`) or end of input - this is the actual
+    // comment content
+    let line_content = take_while(0.., |c: u8| c != b'\n' && c != b'\r').parse_next(input)?;
     let comment_text = bytes_to_str(line_content);
 
     Ok(Comment::new(comment_text))
